@@ -22,6 +22,8 @@ From SCC Require Import Model.Fun2CoreTyGuard Proof.Fun2CoreTyRefute Proof.Fun2C
 From SCC Require Proof.CheckFixed.
 From SCC Require Import Model.Uniquify Model.FocusTyGuard Proof.Fun2CoreProof Proof.Fun2CoreExamples Proof.Fun2CoreTyProg Proof.Fun2CoreTyTotal
      Proof.Fun2CoreIds Proof.UqTyTop Proof.FocusTyTop Proof.FocusNamesTop Proof.WtPipeline Proof.WtExamples2 Proof.WtExamples3.
+From SCC Require Sem.FunNames.
+From SCC Require Import Proof.CheckTyGuardProg Proof.CheckTyGuardExamples Proof.CheckTyGuardPipeline.
 Import ListNotations.
 
 (* ======================================================================================== *)
@@ -646,3 +648,76 @@ Theorem C12_pipeline_examples :
   pipeline_ok ex_lists = true /\ pipeline_ok ex_case_of = true /\ pipeline_ok ex_gen3 = true.
 Proof. exact pipeline_examples_ok. Qed.
 Print Assumptions C12_pipeline_examples.
+
+(* ======================================================================================== *)
+(* C15 -> C12: every output of the type checker satisfies the typing guard tg                *)
+(* ======================================================================================== *)
+
+(* Until here the typing guard [prog_tyguard] of C12_pipeline_wt_source was MEASURED on every run for the outputs of
+   the checker (tag f2c-guard of modelrun wt-stages).  Now proved: the output of the checker model satisfies it
+   (Proof/CheckTyGuard.v: an induction over check_term_gen - the annotated output term satisfies tg in every scope
+   that agrees with the checker's context, all term forms; Proof/CheckTyGuardProg.v: definitions, declarations, the
+   final symbol table as the compiled declarations).  Hypotheses besides acceptance:
+     [prog_names_ok src]   identifier-like names (the domain of C15's theorems; every parsed program),
+     [no_cont_decl src]    no declared type is named `_Cont`, the reserved continuation type of the Core checker
+                           (every parsed program: the lexer's type names start with a capital letter),
+     [xtor_tys_guard p]    the field types of all xtors of the output are declared - the closure guard that
+                           C12_pipeline_wt_source asks anyway: the checker's output is not closed under the types it
+                           mentions (C15_output_closed_refuted).
+   Both extra guards are needed (C12_checked_program_in_tyguard_closure_guard_needed: a used destructor whose return type
+   is never instantiated, accepted by the real checker; ..._cont_guard_needed); xtor_tys_guard is not the weakest
+   possible closure guard (what is used: the return types of destructors and the field types bound by clauses). *)
+Theorem C12_checked_program_in_tyguard : forall src p,
+  FunNames.prog_names_ok src = true -> no_cont_decl src = true ->
+  Check.check src = COk p -> xtor_tys_guard p = true -> prog_tyguard p = true.
+Proof. exact check_tyguard. Qed.
+Print Assumptions C12_checked_program_in_tyguard.
+(* ... for both versions of the checker, in the form without the main clause *)
+Theorem C12_checked_program_in_tyguard_src : forall eager src p,
+  FunNames.prog_names_ok src = true -> no_cont_decl src = true ->
+  Check.check_gen eager src = COk p -> xtor_tys_guard p = true -> prog_tyguard_src p = true.
+Proof. exact check_gen_tyguard_src. Qed.
+Print Assumptions C12_checked_program_in_tyguard_src.
+(* the declarations alone need no closure guard *)
+Theorem C12_checked_program_decls_tyguard : forall eager src p,
+  FunNames.prog_names_ok src = true -> no_cont_decl src = true -> Check.check_gen eager src = COk p -> decls_tyguard p = true.
+Proof. exact check_gen_decls_tyguard. Qed.
+Print Assumptions C12_checked_program_decls_tyguard.
+
+(* THE COMPOSITION whose only program hypothesis is acceptance by the checker (plus the guards above) *)
+Theorem C12_pipeline_wt_of_check : forall src p,
+  FunNames.prog_names_ok src = true -> no_cont_decl src = true -> Check.check src = COk p -> xtor_tys_guard p = true ->
+  exists c f a,
+    compile_prog p = Fun2Core.Ok c /\ wt_core c = true /\
+    focus_prog c = Backend.Ok f /\ wt_fs f = true /\
+    shrink_prog f = SOk a /\ AxCheck.wt_ax a = true /\ prog_ok a = true /\
+    let l := linearize a in
+    lin_check_prog l = true /\
+    (forall lc, within_capacity_x86 l = true -> exists code lc', x86_compile l lc = Backend.Ok (code, main_arity l, lc')) /\
+    (forall lc, within_capacity_a64 l = true -> exists code lc', a64_compile l lc = Backend.Ok (code, main_arity l, lc')) /\
+    (forall lc, within_capacity_rv l = true -> exists code lc', rv_compile l lc = Backend.Ok (code, main_arity l, lc')).
+Proof. exact pipeline_wt_of_check_lemma. Qed.
+Print Assumptions C12_pipeline_wt_of_check.
+
+(* non-vacuity: the five example programs are outputs of the checker (on their own declarations and definitions
+   as a source program) and satisfy all hypotheses *)
+Example C12_pipeline_wt_of_check_examples :
+  checked_in_guards ex_calls /\ checked_in_guards ex_shared /\ checked_in_guards ex_data
+  /\ checked_in_guards ex_labels /\ checked_in_guards ex_codata.
+Proof. exact examples_checked_in_guards. Qed.
+Print Assumptions C12_pipeline_wt_of_check_examples.
+
+(* the guards are needed *)
+Theorem C12_checked_program_in_tyguard_closure_guard_needed :
+  ~ (forall src p, FunNames.prog_names_ok src = true -> no_cont_decl src = true -> Check.check src = COk p -> prog_tyguard p = true).
+Proof. exact tyguard_closure_guard_needed. Qed.
+Print Assumptions C12_checked_program_in_tyguard_closure_guard_needed.
+Example C12_checked_program_in_tyguard_closure_witness :
+  FunNames.prog_names_ok p_undeclared_ret = true /\ no_cont_decl p_undeclared_ret = true /\ has_type_b p_undeclared_ret = true
+  /\ exists q, Check.check p_undeclared_ret = COk q /\ xtor_tys_guard q = false /\ prog_tyguard q = false.
+Proof. exact undeclared_ret_witness. Qed.
+Print Assumptions C12_checked_program_in_tyguard_closure_witness.
+Theorem C12_checked_program_in_tyguard_cont_guard_needed :
+  ~ (forall src p, FunNames.prog_names_ok src = true -> Check.check src = COk p -> xtor_tys_guard p = true -> prog_tyguard p = true).
+Proof. exact tyguard_cont_guard_needed. Qed.
+Print Assumptions C12_checked_program_in_tyguard_cont_guard_needed.
